@@ -427,7 +427,10 @@ def random_selector(rng, n, allow_oob=True):
             q = [rng.randint(-n, n - 1) for _ in range(m)]
             if allow_oob and rng.random() < 0.08:
                 q[rng.randrange(m)] = rng.choice([n, -n - 1, n + 3])
-        return q if k == "list" else np.array(q, dtype=rng.choice([np.int64, np.int32, np.intp]))
+        if k == "list":
+            return q
+        dts = ["int64", "int32", "intp", "int64", ">i8", ">i4", ">i2"] + ([">u8", ">u4", "uint16"] if all(x >= 0 for x in q) else [])     # byte-swapped index vectors too
+        return np.array(q, dtype=rng.choice(dts))
     if k == "mask":
         p = rng.choice([0.0, 0.5, 0.5, 1.0])
         m = [rng.random() < p for _ in range(n)]
